@@ -117,6 +117,10 @@ func cmdDrive(args []string) {
 			driveKernel(r, w, id, &cv)
 			continue
 		}
+		if *prof == "offsetkernel" {
+			driveOffsetKernel(r, w, id, &cv)
+			continue
+		}
 		if *prof == "cowkeys" {
 			driveCowKeys(r, w, id, *bits, *maxAtoms, &cv)
 			continue
@@ -690,6 +694,69 @@ func driveAggSparse(r *rand.Rand, w *bufio.Writer, id int, bits int, maxAtoms in
 		e.run(Call{Op: "Clone", Dst: 6, X: 1})
 		e.run(Call{Op: "AndAny", X: 6, Xs: []int{2, 3}})
 	}
+	cv.Traces++
+	cv.Events += e.events
+	for k, v := range e.cover {
+		cv.Ops[k] += v
+	}
+}
+
+// driveOffsetKernel: AddOffset / AddOffset64 with ARBITRARY offsets on storage-edge shapes. The offset is larger than
+// the span of the operand, so operand g and result g+d are disjoint generators of the universe (g is one atom per cell,
+// and it maps onto an atom); every chunk of g is split in two by the offset's low 16 bits and the upper half of one
+// chunk meets the lower half of the next in the result. The way back (-d) must restore g.
+func driveOffsetKernel(r *rand.Rand, w *bufio.Writer, id int, cv *coverOut) {
+	var u *Universe
+	var ga []int
+	var d int64
+	for {
+		key := pick(r, []uint64{8, 9, 100, 0x7FF0, 0xFFE0})
+		g := edgeShape(r, key)
+		if r.Intn(2) == 0 {
+			g = chunkShape(r, key)
+		}
+		g = g.union(pick(r, []iset{edgeShape(r, key+1), chunkShape(r, key+1), relativeShape(r, g, key)}))
+		if r.Intn(3) == 0 {
+			g = g.union(edgeShape(r, key+2))
+		}
+		if g.empty() {
+			continue
+		}
+		low := pick(r, []int64{1, 63, 64, 65, 4095, 4096, 5000, 32768, 60000, 61440, 65535, int64(r.Intn(65536)), 0})
+		d = int64(4+r.Intn(3))*65536 + low
+		if r.Intn(2) == 0 {
+			d = -d
+		}
+		t := g.shift(d, 0xFFFFFFFF)
+		var err error
+		u, err = vennUniverse(32, nil, []iset{g, t})
+		if err != nil {
+			panic(err)
+		}
+		if len(u.Atoms) > 20 {
+			continue
+		}
+		u.computeShifts([]int64{d, -d})
+		ga, _ = u.project(g)
+		ok := len(ga) > 0
+		for _, a := range ga {
+			if u.Sh[0][a-1] <= 0 {
+				ok = false
+			}
+		}
+		if ok {
+			break
+		}
+	}
+	u.Name = "offsetkernel"
+	e := newExec(u, w, id, r.Int63())
+	e.begin()
+	e.run(Call{Op: "Build", Dst: 1, As: ga, Rcp: pick(r, []string{"R", "Ro", "M", "Mo", "Rc", "A", "Rz"})})
+	e.run(Call{Op: "AddOffset", Dst: 2, X: 1, J: 1, V: r.Intn(2)})
+	e.run(Call{Op: "Ser", X: 2, V: r.Intn(4)})
+	e.run(Call{Op: "AddOffset", Dst: 3, X: 2, J: 2, V: r.Intn(2)})
+	e.run(Call{Op: "Equals", X: 1, Y: 3})
+	e.run(Call{Op: "Card", X: 2})
 	cv.Traces++
 	cv.Events += e.events
 	for k, v := range e.cover {
